@@ -3,7 +3,7 @@ the real library and project the observation into the specification's vocabulary
 Deliberately dumb: attribute reads and constructor calls only."""
 from __future__ import annotations
 
-from .core import outcome, octs
+from .core import outcome, octs, after_pack
 from .probe import decode_other
 
 
@@ -168,6 +168,9 @@ def op_tc_rt(a):
         plen = tc.packet_len
         if bytes(tc.to_space_packet().pack()) != bytes(sp):
             sp = b"view changes across pack()"
+        return after_pack(raw, lambda: rest(tc, raw, plen, sp))
+
+    def rest(tc, raw, plen, sp):
         dec = PusTc.unpack(bytes(raw) + bytes(a["sfx"]))
         decode_other("tc", PusTc.unpack)
         return {"octets": octs(raw), "plen": plen, "sp": octs(sp), "crcok": bool(check_pus_crc(bytes(raw))),
@@ -208,6 +211,9 @@ def op_tm_rt(a):
         plen = _inner_tm(tm).packet_len
         if bytes(_inner_tm(tm).to_space_packet().pack()) != bytes(sp):
             sp = b"view changes across pack()"
+        return after_pack(raw, lambda: rest(tm, raw, plen, sp, via))
+
+    def rest(tm, raw, plen, sp, via):
         cls = Service17Tm if via == "srv17" else PusTm
         tsl = len(a["p"]["stamp"])
         dec = cls.unpack(bytes(raw) + bytes(a["sfx"]), tsl)
